@@ -18,7 +18,7 @@ RULE = ('starting from valid strings (C04 grammar ASTs incl. multiplied nodes/br
         'existing ring bond); (c) a node with an edge of order >= 1 renamed to a name without fragment; (d) an annotation '
         'entry with two "="; (e) more positional values than the dialect has, written before, after or around a key=value entry; (f) a non-numeric value (positional or keyword) '
         'for a key that is reserved-numeric at that level - in base-graph nodes, coarse-fragment nodes and atomistic bracket '
-        'atoms; (d-f) also inside a SECOND definition of an already defined name appended to its block, and (a) also on nodes of '
+        'atoms; (f) on atoms also with the text of a base-graph node of the same string as the value; (d-f) also inside a SECOND definition of an already defined name appended to its block, and (a) also on nodes of '
         'coarse fragments. Expected: SyntaxError for a-e, TypeError for f, raised by read_cgsmiles / from_string / resolve; anything '
         'else (a returned graph, another exception type) is a violation. In hierarchies (3+ blocks) fault (c) also renames a node to a name that only ANOTHER block defines. evaluations = faulted strings executed; distinct = '
         '(fault class, level, position class, feature set of the base string).')
@@ -149,13 +149,13 @@ def base_variants(rng, ast, per_node_annot=2):
     return out
 
 
-def atom_annotation_variants(rng, tokens, g, n_per=1):
+def atom_annotation_variants(rng, tokens, g, n_per=1, extra_f=()):
     """(d,e,f) injected into every atom of an atomistic fragment (turned into a bracket atom)"""
     out = []
     atoms = [k for k, t in enumerate(tokens) if t[0] == 'atom']
     for pos, k in enumerate(atoms):
         for fault in 'def':
-            for text in rng.sample(BAD['frag'][fault], n_per):
+            for text in rng.sample(BAD['frag'][fault], n_per) + (list(extra_f) if fault == 'f' and pos % 3 == 0 else []):
                 toks = list(tokens)
                 t = toks[k]
                 d = g.nodes[t[2]]
@@ -237,7 +237,9 @@ def cases(seed, tier, shard, nshards):
                                    string=G.to_string(a2) + '.' + frag()))
             for fi, (name, text) in enumerate(items):
                 late = '_late_fragment' if fi == len(items) - 1 and len(items) > 2 else ''
-                for f, p, s in atom_annotation_variants(rng, c['tokens'][name], g):
+                # (f) also with the text of a base-graph node of the same string as the faulty value: '[C;F0]' where '[#F0]'
+                # was read a moment ago - a proper node name there, a non-numeric weight here
+                for f, p, s in atom_annotation_variants(rng, c['tokens'][name], g, extra_f=[rng.choice(items)[0]]):
                     vs.append(dict(fault=f, pos=p + late, level='atom', api='resolve', string=base_s + '.' + frag({name: s})))
             # the same atom-level faults inside a SECOND definition of a name that is already defined earlier in the block
             # (the first definition is the one that counts, the faulty text still has to be rejected)
